@@ -5,7 +5,10 @@ import (
 	"context"
 	"fmt"
 	"hash/fnv"
+	"os"
+	"path/filepath"
 	"strings"
+	"sync"
 	"time"
 
 	"github.com/containerd/nri/pkg/adaptation"
@@ -149,7 +152,7 @@ type connection struct {
 // plugin's Synchronize until after it appended the plugin, so once Synchronize was entered
 // BlockPluginSync() (public API) returns only after the append.
 // synced/closed must be buffered channels fed by the plugin's OnSynchronize / OnClose.
-func connectAndWait(rt *fx.Runtime, p *fx.Plugin, synced, closed <-chan struct{}, wireZero bool) connection {
+func connectAndWait(rt *lcRuntime, p *fx.Plugin, synced, closed <-chan struct{}, wireZero bool) connection {
 	var extra []stub.Option
 	if wireZero {
 		extra = append(extra, stub.WithTTRPCOptions(nil, []ttrpc.ServerOpt{wireZeroMask()}))
@@ -189,4 +192,74 @@ func joinInts(xs []int) string {
 		ss[i] = fmt.Sprint(x)
 	}
 	return strings.Join(ss, ",")
+}
+
+// lcRuntime is this package's runtime side: an in-process Adaptation on a unix socket, like
+// fx.Runtime, but with the Adaptation's own life cycle in the harness's hands: the same
+// Adaptation object can be stopped before its first start and stopped and started again.
+type lcRuntime struct {
+	A      *adaptation.Adaptation
+	Dir    string
+	Socket string
+
+	mu       sync.Mutex
+	UpdateFn func(context.Context, []*api.ContainerUpdate) ([]*api.ContainerUpdate, error)
+}
+
+// newLCRuntime creates and starts an adaptation; with preStop, Stop() is called on it
+// before its first Start().
+func newLCRuntime(preStop bool) (*lcRuntime, error) {
+	r := &lcRuntime{Dir: fx.ShortDir()}
+	r.Socket = filepath.Join(r.Dir, "nri.sock")
+	a, err := adaptation.New("verif", "0.0", r.sync, r.update,
+		adaptation.WithSocketPath(r.Socket),
+		adaptation.WithPluginPath(filepath.Join(r.Dir, "plugins")),
+		adaptation.WithPluginConfigPath(filepath.Join(r.Dir, "conf.d")))
+	if err != nil {
+		os.RemoveAll(r.Dir)
+		return nil, err
+	}
+	r.A = a
+	if preStop {
+		a.Stop()
+	}
+	if err := a.Start(); err != nil {
+		os.RemoveAll(r.Dir)
+		return nil, err
+	}
+	return r, nil
+}
+
+func (r *lcRuntime) sync(ctx context.Context, cb adaptation.SyncCB) error {
+	_, err := cb(ctx, nil, nil)
+	return err
+}
+
+func (r *lcRuntime) update(ctx context.Context, u []*api.ContainerUpdate) ([]*api.ContainerUpdate, error) {
+	r.mu.Lock()
+	f := r.UpdateFn
+	r.mu.Unlock()
+	if f != nil {
+		return f(ctx, u)
+	}
+	return nil, nil
+}
+
+func (r *lcRuntime) setUpdateFn(f func(context.Context, []*api.ContainerUpdate) ([]*api.ContainerUpdate, error)) {
+	r.mu.Lock()
+	r.UpdateFn = f
+	r.mu.Unlock()
+}
+
+// Restart stops the Adaptation and starts the same object again. Stop() forgets all plugins
+// (external plugins keep their connections but are not listed any more: to take part again
+// they have to connect anew).
+func (r *lcRuntime) Restart() error {
+	r.A.Stop()
+	return r.A.Start()
+}
+
+func (r *lcRuntime) Stop() {
+	r.A.Stop()
+	os.RemoveAll(r.Dir)
 }
